@@ -553,6 +553,8 @@ pub fn fillers() -> Vec<Filler> {
         Filler { build: |_| Look(bx(Alt(vec![Lit('a'), Concat(vec![Lit('b'), Lit('b')])])), true, false) },
         Filler { build: |_| Look(bx(Alt(vec![Lit('a'), Concat(vec![Lit('b'), Lit('b')])])), true, true) },
         Filler { build: |_| Look(bx(g(Alt(vec![Lit('a'), ab()]))), false, false) },
+        Filler { build: |_| Look(bx(Alt(vec![g(Lit('a')), g(Concat(vec![Lit('b'), Lit('a')]))])), true, false) },
+        Filler { build: |_| Look(bx(Alt(vec![g(Lit('a')), Concat(vec![Lit('b'), Lit('a')])])), true, false) },
         Filler { build: |_| Look(bx(Empty), false, false) },
         Filler { build: |_| Concat(vec![Look(bx(g(Lit('a'))), false, false), Lit('a')]) },
         Filler { build: |_| Atomic(bx(Alt(vec![Lit('a'), ab()]))) },
